@@ -24,6 +24,10 @@ type RT1 struct{ R int }
 type RT2 struct{ R int }
 type RT3 struct{ R int }
 
+// EventTypeName on the POINTER receiver: RT3 is published and subscribed by value, so the method is not in the
+// method set of the event type and every route must use the reflect name "main.RT3"
+func (*RT3) EventTypeName() string { return "rt3.custom" }
+
 type fullStore interface {
 	eb.EventStore
 	eb.EventStoreStreamer
@@ -134,6 +138,43 @@ func (p *planStore) LoadOffset(ctx context.Context, id string) (eb.Offset, error
 	return off, err
 }
 
+// pagedStore is a store WITHOUT ReadStream whose Read returns pages of at most two events whatever the limit (the
+// limit is an upper bound): Replay has to go on reading until a page comes back empty. The first Read after a
+// LoadOffset counts as the store operation the streaming variant performs at that point (fault / crash plan).
+type pagedStore struct {
+	p     *planStore
+	first bool
+}
+
+func (s *pagedStore) Append(ctx context.Context, e *eb.Event) (eb.Offset, error) { return s.p.Append(ctx, e) }
+func (s *pagedStore) SaveOffset(ctx context.Context, id string, off eb.Offset) error {
+	return s.p.SaveOffset(ctx, id, off)
+}
+func (s *pagedStore) LoadOffset(ctx context.Context, id string) (eb.Offset, error) {
+	s.first = true
+	return s.p.LoadOffset(ctx, id)
+}
+func (s *pagedStore) Read(ctx context.Context, from eb.Offset, limit int) ([]*eb.StoredEvent, eb.Offset, error) {
+	if s.p.dead {
+		return nil, from, errDead
+	}
+	if s.first {
+		s.first = false
+		fail, crash := s.p.tick()
+		if crash {
+			s.p.dead = true
+			return nil, from, errDead
+		}
+		if fail {
+			return nil, from, errInjected
+		}
+	}
+	if limit <= 0 || limit > 2 {
+		limit = 2
+	}
+	return s.p.inner.Read(ctx, from, limit)
+}
+
 // slowStore widens the window between an append and what the bus does next.
 type slowStore struct {
 	inner *eb.MemoryStore
@@ -169,10 +210,18 @@ func (s *slowStore) LoadOffset(ctx context.Context, id string) (eb.Offset, error
 }
 
 type resumeCase struct {
+	paged     bool
 	ps        *planStore
 	bus       *eb.EventBus
 	delivered map[int][]int
 	ids       []int
+}
+
+func (rc *resumeCase) newBus() *eb.EventBus {
+	if rc.paged {
+		return eb.New(eb.WithStore(&pagedStore{p: rc.ps}))
+	}
+	return eb.New(eb.WithStore(rc.ps))
 }
 
 func (rc *resumeCase) publishTy(ty, r int) {
@@ -219,6 +268,7 @@ func resumeDomain(lines []string) []string {
 			return nil
 		}
 		var inner fullStore
+		rc.paged = kind == "paged"
 		if kind == "sqlite" {
 			dir, _ := os.MkdirTemp("", "verifresume")
 			cleanup = append(cleanup, func() { os.RemoveAll(dir) })
@@ -232,7 +282,7 @@ func resumeDomain(lines []string) []string {
 			inner = eb.NewMemoryStore()
 		}
 		rc.ps = &planStore{inner: inner, failAt: failAt, crashAfter: crashAfter}
-		rc.bus = eb.New(eb.WithStore(rc.ps))
+		rc.bus = rc.newBus()
 		return nil
 	}
 	seen := map[int]bool{}
@@ -337,7 +387,7 @@ func resumeDomain(lines []string) []string {
 		// a dead process is replaced by a new one; so is a restarted one
 		if rc.ps.dead || f[0] == "restart" {
 			rc.ps.dead = false
-			rc.bus = eb.New(eb.WithStore(rc.ps))
+			rc.bus = rc.newBus()
 		}
 	}
 	if rc.ps == nil {
